@@ -888,6 +888,32 @@ class Symex:
                         return self.module_state[key]
                     self._modconst[key] = v
                     return v
+                # module-level tuple unpacking: A, B = 0, 1 / (A, B), C = ...
+                if isinstance(st, ast.Assign) and any(isinstance(t, (ast.Tuple, ast.List)) and
+                                                      any(isinstance(n, ast.Name) and n.id == name for n in ast.walk(t))
+                                                      for t in st.targets):
+                    saved = (self.frames, self.module)
+                    self.frames, self.module = [{}], mod
+                    try:
+                        v = self.ev(st.value)
+                    finally:
+                        self.frames, self.module = saved
+
+                    def _pick(tgt, val):
+                        if isinstance(tgt, ast.Name):
+                            return (True, val) if tgt.id == name else (False, None)
+                        if isinstance(tgt, (ast.Tuple, ast.List)) and isinstance(val, (tuple, list)) \
+                                and len(val) == len(tgt.elts) and not any(isinstance(e, ast.Starred) for e in tgt.elts):
+                            for e, x in zip(tgt.elts, val):
+                                ok, r = _pick(e, x)
+                                if ok:
+                                    return ok, r
+                        return False, None
+                    for t in st.targets:
+                        ok, r = _pick(t, v)
+                        if ok:
+                            self._modconst[key] = r
+                            return r
             if name in mod.imports:
                 return self.resolve_import(mod, mod.imports[name], name)
         if name in _BUILTIN_CONST:
